@@ -5,6 +5,7 @@ from ..report import where
 from ..facts import in_module
 from .c11 import dropped_results
 from . import c04
+from .. import storerules as sr
 
 LEVEL = "other"
 COMPENSATE = ("rollback", "restore", "undo", "abort", "revert", "clone_from", "swap", "replace", "restore_from", "apply_undo", "rollback_to", "abort_transaction")
@@ -13,6 +14,10 @@ COMPENSATE = ("rollback", "restore", "undo", "abort", "revert", "clone_from", "s
 def run(ctx, F, cg):
     ctx.rule("R05", "write operators mutate the store row by row, so a function that pulls a write plan (calls next_batch_mut / next_mut on the plan root from outside the operator tree) must, on every error exit after the first pull, pass a compensating write to the store (restore a copy, replay an undo log, abort a store transaction) before returning")
     ctx.rule("R04b", "(shared with C04) no store error is swallowed by a write operator: a swallowed failure is one the statement does not even report")
+    ctx.rule("R05c", "each fallible store mutator validates before it mutates: no error exit is reachable from a mutation point (field write, mutating call, index-manager write) of the same call — otherwise a single failing SET / CREATE already leaves a half-applied store, whatever the statement driver does")
+    ctx.rule("R05d", "the WITH barrier drains its input before emitting: after a pulled row the only continuations are another pull or an error, so an upstream failure cannot follow downstream writes")
+    sr.validate_then_mutate(ctx, F, cg, "R05c")
+    sr.barrier_drains(ctx, F, cg, "R05d")
     drivers = []
     for p, r in sorted(F.fns.items()):
         if not in_module(p, "samyama::query::"):
@@ -62,4 +67,4 @@ def run(ctx, F, cg):
     if n == 0:
         ctx.ok("R04b", "no-dropped-store-results", "%d call sites examined" % total)
     return ("Decided: whether any function that drives a write plan compensates on its error exits (necessary for statement atomicity whatever form the rollback takes) — "
-            "today it does not (known finding) — and that no write operator swallows a store failure. Not decided: completeness of a compensation once present.")
+            "today it does not (known finding) — that no write operator swallows a store failure, that every fallible store mutator validates before it mutates, and that the WITH barrier drains before emitting. Not decided: completeness of a compensation once present.")
